@@ -3,6 +3,7 @@ package main
 import (
 	"go/ast"
 	"go/constant"
+	"go/token"
 	"go/types"
 	"strconv"
 	"strings"
@@ -84,6 +85,7 @@ func runC07(c *Ctx) {
 	c.c07NoAnswerFromAClosedFilesystem()
 	c.c07TimesReportTheErrorOfStat()
 	c.c07ArchivingInventsNoPattern()
+	c.c07SiblingComparisonsAgree()
 	c.c07EmptyDirectoriesAndDirectorySizes()
 }
 
@@ -1885,5 +1887,69 @@ func (c *Ctx) c07ArchivingInventsNoPattern() {
 	}
 	if n == 0 {
 		c.violate("V16", fsPkgRel+"/no-archiving-call", "-", "no variant of Zip reaches an archiving implementation that takes patterns any more")
+	}
+}
+
+// c07SiblingComparisonsAgree (V17): "zipping it and unzipping the result reproduces the tree … with and without limits": a tree
+// that fits the limits exactly is extracted. Where one function compares a quantity with the same limit in more than one
+// place (the count of entries is checked in the directory branch and again at the bottom of the loop), the places agree on
+// whether the limit itself is still allowed: one `>=` among `>` refuses, in that place only, an archive that reaches the
+// limit without exceeding it — a tree whose last entry is an empty directory, extracted with a count limit equal to its
+// number of entries.
+func (c *Ctx) c07SiblingComparisonsAgree() {
+	c.rule("V17", "within one function of package filesystem every comparison of a quantity with the same limit (GetMaxFileCount, GetMaxTotalSize, GetMaxFileSize, GetMaxDepth) uses the same operator: the places that enforce one limit agree on whether reaching it is allowed", 1)
+	for _, f := range c.srcFuncs(fsPkgRel) {
+		if f.Blocks == nil {
+			continue
+		}
+		ops := map[string]map[string][]string{}
+		allInstrs(f, func(in ssa.Instruction) {
+			b, ok := in.(*ssa.BinOp)
+			if !ok {
+				return
+			}
+			switch b.Op {
+			case token.GTR, token.GEQ, token.LSS, token.LEQ:
+			default:
+				return
+			}
+			for _, g := range []string{"GetMaxFileCount", "GetMaxTotalSize", "GetMaxFileSize", "GetMaxDepth"} {
+				var other ssa.Value
+				op := b.Op
+				switch {
+				case isLimitsGetter(b.Y, g):
+					other = b.X
+				case isLimitsGetter(b.X, g):
+					other = b.Y
+					// normalise to "quantity OP limit"
+					op = map[token.Token]token.Token{token.GTR: token.LSS, token.GEQ: token.LEQ, token.LSS: token.GTR, token.LEQ: token.GEQ}[b.Op]
+				default:
+					continue
+				}
+				if _, isConst := other.(*ssa.Const); isConst {
+					continue // the limit tested against a constant ("is there a limit at all?")
+				}
+				if ops[g] == nil {
+					ops[g] = map[string][]string{}
+				}
+				ops[g][op.String()] = append(ops[g][op.String()], c.ipos(b))
+			}
+		})
+		for g, byOp := range ops {
+			total := 0
+			for _, sites := range byOp {
+				total += len(sites)
+			}
+			if total < 2 {
+				continue
+			}
+			detail := ""
+			for op, sites := range byOp {
+				detail += " `" + op + "` at " + strings.Join(sites, ", ") + ";"
+			}
+			c.FuncsSeen[fname(outermost(f))] = true
+			c.check(len(byOp) == 1, "V17", fname(f)+"/"+g+"/same-operator", c.pos(f.Pos()), "the comparisons with this limit use one operator",
+				"the comparisons with "+g+"() in this function disagree:"+detail+" in one of these places reaching the limit is refused, in the other it is allowed — an archive whose count of entries (or size) equals the limit is extracted or refused depending on which entry comes last: a tree ending with an empty directory fails the round trip under a count limit equal to its number of entries")
+		}
 	}
 }
